@@ -100,10 +100,39 @@ let v6hbh_parse_op kv =
     (if is_ok c then Printf.sprintf " acc options=%s" (ob (v6hbh_options bs)) else "")
     (show_o v6hbh_show (v6hbh_parse bs))
 
+(* ---------------- Routing header ---------------- *)
+let v6rt_show r = match r with
+  | V6RtType2 (sl, ha) -> Printf.sprintf "Ok kind=type2 sl=%s home=%s" (sz sl) (hex_of_bytes ha)
+  | V6RtRpl (sl, ci, ce, p, a) ->
+      Printf.sprintf "Ok kind=rpl sl=%s ci=%s ce=%s pad=%s addrs=%s" (sz sl) (sz ci) (sz ce) (sz p) (show_bytes a)
+let v6rt_emit_op kv =
+  let r = match get kv "kind" with
+    | "type2" -> V6RtType2 (geti kv "sl", getb kv "home")
+    | _ -> V6RtRpl (geti kv "sl", geti kv "ci", geti kv "ce", geti kv "pad", getb kv "addrs") in
+  let res = v6rt_emit r (getb kv "buf") in
+  Printf.sprintf "ret %s | %s" (ob res)
+    (match res with Ok bs -> show_o v6rt_show (v6rt_parse bs) | _ -> "-")
+let v6rt_parse_op kv =
+  let bs = getb kv "bytes" in
+  let c = v6rt_check_len bs in
+  Printf.sprintf "chk %s%s parse %s" (chk c)
+    (if is_ok c then
+       let t = v6rt_routing_type bs in
+       Printf.sprintf " acc type=%s sl=%s%s" (oz t) (oz (v6rt_segments_left bs))
+         (match t with
+          | Ok t when int_of_z t = 2 -> Printf.sprintf " home=%s" (ohex (v6rt_home_address bs))
+          | Ok t when int_of_z t = 3 ->
+              Printf.sprintf " ci=%s ce=%s pad=%s addrs=%s" (oz (v6rt_cmpr_i bs)) (oz (v6rt_cmpr_e bs))
+                (oz (v6rt_pad bs)) (ob (v6rt_addresses bs))
+          | _ -> "")
+     else "")
+    (show_o v6rt_show (v6rt_parse bs))
+
 (* ---------------- dispatch ---------------- *)
 let dispatch : (string * ((string * string) list -> string) * ((string * string) list -> string)) list = [
   ("v6opt", v6opt_emit_op, v6opt_parse_op);
   ("v6hbh", v6hbh_emit_op, v6hbh_parse_op);
+  ("v6routing", v6rt_emit_op, v6rt_parse_op);
 ]
 
 let () =
